@@ -5,6 +5,10 @@ No SAT solver is installed, so the bridge is driven against *scripted* solvers
 private bin/ directory that is first on PATH for the duration of one case.  The
 canned answer is computed from the complete truth table of the formula, so the fake
 solver always tells the truth; the check is about the bridge, not about solving.
+
+'history' keeps one sandbox (one PATH string) for a sequence of installations,
+removals and calls and follows the content of the directories with a model;
+'environment' gives the temporary directory and the PATH entry unusual names.
 """
 import io
 import os
@@ -25,6 +29,9 @@ ASSUMPTIONS = [
     "glucose is treated as gray: its fake answers in the DIMACS convention on stdout and in the minisat convention on the result file, so either interface choice of the tree is accepted",
     "cmd=None tries the supported solvers in the order of supported_satsolvers() of the tree under test",
     "when an unknown 'sameas' coincides with a missing solver either documented error (ValueError, RuntimeError) is accepted",
+    "a solver is reachable when some directory of PATH holds a program that can be executed under its name (the search goes on after a file without execute permission or one the kernel refuses); what is reachable is decided at the moment of each call, not once per process",
+    "some_solver_installed(names) is expected to be true exactly when one of the names is reachable (no argument: the supported names)",
+    "names of the temporary directory and of PATH entries: any characters but tab, newline, NUL, '/' (and ':' in PATH); the path is absolute; tokens of a command line are separated by one or more blanks, blanks around it are allowed",
 ]
 
 NAMES = sorted(fs.BEHAVIOUR)
@@ -857,73 +864,93 @@ def run_history(case):
 _HIST_STATES = ['ok'] * 6 + ['noexec', 'badformat']
 
 
+# _CHANCE[k]: true k times out of k+1 (sampled_from: Hypothesis draws integers far from uniformly)
+_CHANCE = dict((k, st.sampled_from([True] * k + [False])) for k in (1, 2, 3, 4, 5))
+
+
 @st.composite
 def strat_history(draw):
-    """2..5 steps; the model of the directories is followed while drawing so that
-    removals hit something and calls are about the programs that moved."""
+    """2..5 steps about one to three programs.  The model of the directories is followed
+    while drawing: changes and questions alternate most of the time, removals hit
+    something that is there, and the questions come from a short per-case list so that
+    the same question is asked again after the directories changed."""
     case = draw(strat_formula())
     sh = draw(strat_shape())
-    if sh['status'] != 'answer' and draw(st.integers(0, 2)):
+    if sh['status'] != 'answer' and draw(_CHANCE[3]):
         sh = dict(ENUM_SHAPES[draw(st.integers(0, 2))])
     case['shape'] = sh
     case['pick'] = draw(st.sampled_from([0, 1, 2]) | st.integers(0, 5000))
     case['exe_sameas'] = draw(st.sampled_from(NAMES))
-    pool = draw(st.lists(st.sampled_from(NAMES), min_size=1, max_size=3, unique=True))
-    if draw(st.integers(0, 3)) == 0:
-        pool.append(EXE)
+    theme = draw(st.sampled_from(['one', 'default', 'mixed', 'one', 'default']))
+    if theme == 'one':
+        pool = [draw(st.sampled_from(NAMES))]
+    else:
+        pool = draw(st.lists(st.sampled_from(NAMES), min_size=2, max_size=3, unique=True))
+    if not draw(_CHANCE[5]):
+        pool[draw(st.integers(0, len(pool) - 1))] = EXE
     dirs = [{}, {}]
     initial = []
-    for nm in draw(st.lists(st.sampled_from(NAMES + [EXE]), max_size=2, unique=True)):
-        where = draw(st.sampled_from([0, 0, 0, 1]))
-        state = draw(st.sampled_from(_HIST_STATES))
-        initial.append([nm, state, where])
-        dirs[where][nm] = state
+    for nm in pool:
+        if not draw(_CHANCE[1 if theme == 'default' else 2]):
+            where = draw(st.sampled_from([0, 0, 0, 1]))
+            state = draw(st.sampled_from(_HIST_STATES))
+            initial.append([nm, state, where])
+            dirs[where][nm] = state
+    if not draw(_CHANCE[5]):
+        nm = draw(st.sampled_from(NAMES))          # a bystander that never moves
         if nm not in pool:
-            pool.append(nm)
+            initial.append([nm, 'ok', draw(st.sampled_from([0, 1]))])
+            dirs[initial[-1][2]][nm] = 'ok'
     case['initial'] = initial
-    L = draw(st.integers(2, 5))
-    steps = []
 
-    def a_call():
-        kind = draw(st.sampled_from(['named', 'named', 'auto', 'auto', 'probe', 'sameas']))
+    def a_question():
         nm = draw(st.sampled_from(pool))
+        kind = draw(st.sampled_from(['named', 'named', 'auto', 'auto', 'probe', 'probe']))
         if kind == 'probe':
             how = draw(st.sampled_from(['none', 'str', 'list', 'list']))
             if how == 'none':
                 return {'op': 'probe', 'arg': None}
             if how == 'str':
                 return {'op': 'probe', 'arg': nm}
-            others = draw(st.lists(st.sampled_from(NAMES + [EXE]), max_size=2))
+            others = draw(st.lists(st.sampled_from(pool + ['nosuchsolver'] + NAMES[:2]), max_size=2))
             k = draw(st.integers(0, len(others)))
             return {'op': 'probe', 'arg': others[:k] + [nm] + others[k:]}
         what = draw(st.sampled_from(['solve', 'is_satisfiable']))
         flags = draw(st.lists(st.sampled_from(FLAGS), max_size=1))
         if kind == 'auto':
             return {'op': 'call', 'what': what, 'mode': 'auto'}
-        if nm == EXE or kind == 'sameas':
+        if nm == EXE:
             return {'op': 'call', 'what': what, 'mode': 'sameas', 'flags': flags}
         return {'op': 'call', 'what': what, 'mode': 'named', 'solver': nm, 'flags': flags}
 
+    questions = [a_question() for _ in range(draw(st.sampled_from([1, 2, 1, 3])))]
+    if theme == 'default':
+        questions = [q for q in questions if q.get('mode') == 'auto' or q.get('arg', 0) is None][:1]
+        questions.append({'op': 'call', 'what': draw(st.sampled_from(['solve', 'is_satisfiable'])), 'mode': 'auto'})
+    L = draw(st.sampled_from([4, 5, 3, 5, 4, 3, 5, 2]))
+    steps = []
+    last_was_call = draw(st.booleans())
     for i in range(L):
-        present = [(nm, w) for w in (0, 1) for nm in sorted(dirs[w])]
         if i == L - 1:
-            steps.append(a_call())
+            ask = True
+        else:
+            ask = not draw(_CHANCE[4]) if last_was_call else draw(_CHANCE[4])
+        if ask:
+            steps.append(dict(questions[draw(st.integers(0, len(questions) - 1))]))
+            last_was_call = True
             continue
-        kind = draw(st.sampled_from(['call', 'call', 'install', 'install', 'remove']))
-        if kind == 'remove' and not present:
-            kind = 'install'
-        if kind == 'call':
-            steps.append(a_call())
-        elif kind == 'install':
-            nm = draw(st.sampled_from(pool))
+        last_was_call = False
+        nm = draw(st.sampled_from(pool))
+        holders = [w for w in (0, 1) if nm in dirs[w]]
+        if holders and draw(_CHANCE[3]):
+            where = draw(st.sampled_from(holders))
+            steps.append({'op': 'remove', 'name': nm, 'dir': where})
+            del dirs[where][nm]
+        else:
             where = draw(st.sampled_from([0, 0, 0, 1]))
             state = draw(st.sampled_from(_HIST_STATES))
             steps.append({'op': 'install', 'name': nm, 'state': state, 'dir': where})
             dirs[where][nm] = state
-        else:
-            nm, where = draw(st.sampled_from(present))
-            steps.append({'op': 'remove', 'name': nm, 'dir': where})
-            del dirs[where][nm]
     case['steps'] = steps
     return case
 
